@@ -59,6 +59,8 @@ func main() {
 		err = h.RunC15(*cases, *pre, *trace, *stats)
 	case "c12tally":
 		err = h.RunC12Tally(*cases, *trace, *stats)
+	case "c17":
+		err = h.RunC17(*cases, *trace, *stats, *seed)
 	case "c18":
 		err = h.RunC18(*cases, *trace, *stats, *seed)
 	case "hist":
